@@ -32,6 +32,8 @@ def env_sched_c01():
     s.append((0.3, 2, LP, 'log', 0))
     # an event that carries the id -1, which the library itself uses for TERMINATE and the resource manager's checks
     s.append((1, -1, F, 'log', 0))
+    # an action that raises (the caller handles the exception and keeps stepping): it still ran, once
+    s.append((0, 1, F, 'boom', 0))
     return s
 
 
@@ -46,6 +48,8 @@ def env_sched_c07():
         s.append((1, 1000, PP, k, 1))       # asset 1000's action pauses/resumes/cancels asset 1 from inside
     s.append((0.5, 1, F, 'pause', 1))       # an action that pauses its own asset
     s.append((0.5, 2, F, 'follow', 1))
+    # an event of asset 1 that carries the lowest priority there is (the one the run's own end marker uses)
+    s.append((1, 1, 1, 'log', 0))
     return s
 
 
